@@ -23,12 +23,23 @@ struct RecAlloc : public PageAllocator {
   std::map<void*, int> live;
   size_t allocated {0}, freed {0};
   bool double_free {false};
+  bool slab {false};                 // pages adjacent in memory, ascending (slab / pool allocator)
+  char* arena {nullptr}; size_t arena_used {0};
+  static constexpr size_t ARENA = 8u << 20;
+  bool in_arena(void* p) const { return arena && (char*)p >= arena && (char*)p < arena + ARENA; }
+  ~RecAlloc() { free(arena); }
   size_t page_size() const noexcept override { return psize; }
   using PageAllocator::allocate;
   using PageAllocator::deallocate;
   void allocate(void** pages, size_t num) noexcept override {
     for (size_t i = 0; i < num; ++i) {
-      void* p = aligned_alloc(64, (psize + 63) / 64 * 64);
+      void* p;
+      if (slab && arena_used + psize <= ARENA) {
+        if (!arena) arena = (char*)aligned_alloc(64, ARENA);
+        p = arena + arena_used; arena_used += psize;
+      } else {
+        p = aligned_alloc(64, (psize + 63) / 64 * 64);
+      }
       live[p] = 1; allocated++; pages[i] = p;
     }
   }
@@ -36,7 +47,7 @@ struct RecAlloc : public PageAllocator {
     for (size_t i = 0; i < num; ++i) {
       auto it = live.find(pages[i]);
       if (it == live.end()) { double_free = true; continue; }
-      live.erase(it); freed++; free(pages[i]);
+      live.erase(it); freed++; if (!in_arena(pages[i])) free(pages[i]);
     }
   }
 };
@@ -96,7 +107,7 @@ int main() {
         threads.push_back(es);
       }
     }
-    RecAlloc alloc; alloc.psize = psize;
+    RecAlloc alloc; alloc.psize = psize; alloc.slab = (seed % 2) == 0 && psize % 8 == 0;
     std::vector<std::unique_ptr<RecFile>> files;
     for (int i = 0; i < nfiles; ++i) { files.emplace_back(new RecFile); files.back()->rotate_every = rot; }
     auto* app = new AsyncFileAppender();
